@@ -105,6 +105,15 @@ func soak(d *daemonWorld, spec soakSpec) soakResult {
 						}
 						row["id"] = float64(100000 + v)
 						row["comment"] = fmt.Sprintf("soak %d", v)
+						if sv := tables["services"]; sv != nil && len(sv.Rows) > 0 {
+							target := sv.Rows[int(v)%len(sv.Rows)]
+							row["host_name"] = target["host_name"]
+							if v%2 == 0 {
+								row["service_description"] = target["description"]
+							} else {
+								row["service_description"] = ""
+							}
+						}
 						ct.Rows = append(ct.Rows, row)
 						if len(ct.Rows) > 6 {
 							ct.Rows = append(ct.Rows[:1], ct.Rows[2:]...)
@@ -154,6 +163,10 @@ func soak(d *daemonWorld, spec soakSpec) soakResult {
 		"GET hostgroups\nColumns: name members members_with_state num_hosts num_services_crit worst_host_state\nOutputFormat: json\n\n",
 		"GET hosts\nColumns: name state\nWaitTrigger: all\nWaitCondition: state >= 0\nWaitTimeout: 20\nOutputFormat: json\n\n",
 		"GET sites\nColumns: peer_key status last_error\nOutputFormat: json\n\n",
+		// the id lists of comments and downtimes are rewritten when an entry comes or goes; no column of another table here
+		"GET services\nColumns: description comments downtimes\nFilter: comments >= 1\nOutputFormat: json\n\n",
+		"GET services\nStats: comments >= 1\nStats: downtimes >= 1\nOutputFormat: json\n\n",
+		"GET hosts\nColumns: name comments downtimes\nFilter: comments != \nOutputFormat: json\n\n",
 	}
 	for c := 0; c < spec.Clients; c++ {
 		wg.Add(1)
